@@ -10,6 +10,7 @@ package webrtc
 
 import (
 	"fmt"
+	"net"
 	"runtime"
 	"sort"
 	"strings"
@@ -22,9 +23,10 @@ import (
 )
 
 type vfC24Case struct {
-	Pool     int   `json:"pool"`     // ICECandidatePoolSize 0|1
-	Loopback bool  `json:"loopback"` // include the loopback candidate (one more candidate)
-	Again    bool  `json:"again"`    // call SetLocalDescription a second time once everything is quiet
+	Pool     int   `json:"pool"`               // ICECandidatePoolSize 0|1
+	Loopback bool  `json:"loopback"`           // include the loopback candidate (one more candidate)
+	Again    bool  `json:"again"`              // call SetLocalDescription a second time once everything is quiet
+	NoCands  bool  `json:"no_cands,omitempty"` // every address filtered out: gathering completes without a single candidate
 	Choices  []int `json:"choices"`
 }
 
@@ -66,6 +68,9 @@ func vfC24Exec(v *vfT, c vfC24Case) (branching []int) {
 	se := SettingEngine{}
 	se.SetIncludeLoopbackCandidate(c.Loopback)
 	se.SetNetworkTypes([]NetworkType{NetworkTypeUDP4})
+	if c.NoCands {
+		se.SetIPFilter(func(net.IP) bool { return false })
+	}
 	var gatesRef *vfGates
 	se.LoggerFactory = vfC24LoggerFactory{&gatesRef}
 	api := NewAPI(WithSettingEngine(se))
@@ -228,6 +233,9 @@ func vfC24Exec(v *vfT, c vfC24Case) (branching []int) {
 		v.Label("nil-callback-overlaps-flush")
 		v.NonTrivial()
 	}
+	if c.NoCands {
+		v.Label("no-candidates-gathered")
+	}
 	if c.Pool == 1 {
 		v.Label("pool=1")
 	}
@@ -276,8 +284,8 @@ func vfC24Exec(v *vfT, c vfC24Case) (branching []int) {
 }
 
 var vfC24Opts = vfOpts{
-	Rule: "schedules of host-candidate gathering (UDP4, with/without loopback) against SetLocalDescription's pool flush for pool size 0 and 1; the controller orders the agent's callbacks (parked at gather.cand.entry / gather.nil.afterComplete) and the flush (flush.afterTake / flush.beforeNil); non-trivial = the end-of-gathering callback is parked between setState(complete) and its pool check while the flush runs or starts",
-	Assumptions: []string{"real host candidates on this machine's interfaces (1-2 candidates)", "interleavings explored at the four verif yield points only"},
+	Rule:        "schedules of host-candidate gathering (UDP4, with/without loopback) against SetLocalDescription's pool flush for pool size 0 and 1; the controller orders the agent's callbacks (parked at gather.cand.entry / gather.nil.afterComplete) and the flush (flush.afterTake / flush.beforeNil); non-trivial = the end-of-gathering callback is parked between setState(complete) and its pool check while the flush runs or starts",
+	Assumptions: []string{"real host candidates on this machine's interfaces (1-2 candidates), or none at all when every address is filtered out", "interleavings explored at the four verif yield points only"},
 }
 
 func TestVerif_C24_Sampled(t *testing.T) {
@@ -286,6 +294,7 @@ func TestVerif_C24_Sampled(t *testing.T) {
 			Pool:     rapid.SampledFrom([]int{0, 1, 1, 1}).Draw(v.R, "pool"),
 			Loopback: rapid.Bool().Draw(v.R, "loopback"),
 			Again:    rapid.IntRange(0, 3).Draw(v.R, "again") == 0,
+			NoCands:  rapid.IntRange(0, 5).Draw(v.R, "nocands") == 0,
 			Choices:  rapid.SliceOfN(rapid.IntRange(0, 5), 0, 14).Draw(v.R, "choices"),
 		}
 	}, func(v *vfT, c vfC24Case) { vfC24Exec(v, c) })
